@@ -2,7 +2,6 @@ package rzset
 
 import (
 	"database/sql"
-	"slices"
 	"strings"
 	"time"
 
@@ -20,13 +19,7 @@ const (
 	sqlUnionStore1 = sqlDeleteAll1
 	sqlUnionStore2 = sqlDeleteAll2
 	sqlUnionStore3 = sqlAdd1
-	sqlUnionStore4 = `
-	insert into rzset (kid, elem, score)
-	select ?, elem, sum(score) as score
-	from rzset join rkey on kid = rkey.id and type = 5
-	where key in (:keys) and (etime is null or etime > ?)
-	group by elem
-	order by sum(score), elem`
+	sqlUnionStore4 = sqlAdd2
 )
 
 // UnionCmd unions multiple sets.
@@ -138,10 +131,17 @@ func (c UnionCmd) run(tx sqlx.Tx) ([]SetItem, error) {
 
 // store unions multiple sets and stores the result in a new set.
 func (c UnionCmd) store(tx sqlx.Tx) (int, error) {
+	// The destination may be one of the source sets,
+	// so the result is computed before the destination is emptied.
+	items, err := c.run(tx)
+	if err != nil {
+		return 0, err
+	}
+
 	now := time.Now().UnixMilli()
 
 	// Delete the destination key if it exists.
-	_, err := tx.Exec(sqlUnionStore1, c.dest, now)
+	_, err = tx.Exec(sqlUnionStore1, c.dest, now)
 	if err != nil {
 		return 0, err
 	}
@@ -157,19 +157,13 @@ func (c UnionCmd) store(tx sqlx.Tx) (int, error) {
 		return 0, sqlx.TypedError(err)
 	}
 
-	// Union the source sets and store the result.
-	query := sqlUnionStore4
-	if c.aggregate != sqlx.Sum {
-		query = strings.Replace(query, sqlx.Sum, c.aggregate, 2)
-	}
-	query, keyArgs := sqlx.ExpandIn(query, ":keys", c.keys)
-	args := slices.Concat([]any{destID}, keyArgs, []any{now})
-	res, err := tx.Exec(query, args...)
-	if err != nil {
-		return 0, err
+	// Store the result.
+	for _, it := range items {
+		_, err = tx.Exec(sqlUnionStore4, destID, it.Elem.Bytes(), it.Score)
+		if err != nil {
+			return 0, err
+		}
 	}
 
-	// Return the number of elements in the resulting set.
-	n, _ := res.RowsAffected()
-	return int(n), nil
+	return len(items), nil
 }
